@@ -160,6 +160,8 @@ type LoopContract struct {
 	Invariants []*Clause
 	Decreases  *Clause
 	Unroll     int
+	ExitWhen   []*Clause // must hold on every edge that leaves the loop normally (not by return)
+	BackWhen   []*Clause // must hold on every back edge
 }
 
 type FuncContract struct {
@@ -486,8 +488,9 @@ func (p *Program) parseContractFile(pkgName string, f *ast.File, fname string, e
 					cur = &FuncContract{Key: key, File: fname, Line: pos.Line, Loops: map[int]*LoopContract{}, Skip: map[string]bool{}, Props: map[string]bool{}, Trusted: true}
 					p.extSpecs[key] = cur
 				} else {
-					if _, dup := p.contracts[key]; dup {
-						return fmt.Errorf("%s: duplicate contract block for %s", where, key)
+					if ex, dup := p.contracts[key]; dup {
+						cur = ex // several blocks for one function are merged
+						continue
 					}
 					cur = &FuncContract{Key: key, File: fname, Line: pos.Line, Loops: map[int]*LoopContract{}, Skip: map[string]bool{}, Props: map[string]bool{}}
 					p.contracts[key] = cur
@@ -541,6 +544,19 @@ func (p *Program) parseContractFile(pkgName string, f *ast.File, fname string, e
 						cur.Props[propOfTag(t)] = true
 					}
 					lc.Decreases = cl
+					last = cl
+					lastStr = &last.Text
+				case "exit-when", "back-when":
+					cl := &Clause{Kind: sub, Line: where}
+					cl.Tags, cl.Text = splitTags(r2)
+					for _, t := range cl.Tags {
+						cur.Props[propOfTag(t)] = true
+					}
+					if sub == "exit-when" {
+						lc.ExitWhen = append(lc.ExitWhen, cl)
+					} else {
+						lc.BackWhen = append(lc.BackWhen, cl)
+					}
 					last = cl
 					lastStr = &last.Text
 				case "unroll":
